@@ -215,6 +215,13 @@ def lifetime_rules(rep, hirx, wd, st, tier):
             items.append({"id": len(items), "src": src})
             meta.append((verdict, "R7 DiplomatWrite next to a success type other than unit" if verdict == "REJECT" else "A write-out method",
                          "fn f(%s) -> %s" % (args, ret), "write-ret|%s|%s" % (args.split(",")[0], ret), src, "Op::f"))
+    # the write-out parameter is `&mut DiplomatWrite` (book: writeable.md); any other way of taking a DiplomatWrite is not a custom type
+    # behind a reference / by value and has to be refused
+    for args in ("&self, w: &DiplomatWrite", "x: u8, w: &DiplomatWrite", "w: &DiplomatWrite, x: u8", "&self, w: DiplomatWrite", "&self, w: Box<DiplomatWrite>",
+                 "&self, w: Option<&mut DiplomatWrite>", "&self, w: Option<&DiplomatWrite>", "&self, w: &mut [DiplomatWrite]"):
+        src = "#[diplomat::bridge]\nmod ffi {\n%s\n    impl Op { pub fn f(%s) { unimplemented!() } }\n}\n" % (G.PRELUDE, args)
+        items.append({"id": len(items), "src": src})
+        meta.append(("REJECT", "R7 a DiplomatWrite is taken as `&mut DiplomatWrite` only", "fn f(%s)" % args, "write-form|%s" % args.split(", ", 1)[-1] if args.startswith("&self") else "write-form|" + args, src, "Op::f"))
     res = _hirx(hirx, wd, "lts", items)
     for (verdict, rule, what, shape, src, ctx), r in zip(meta, res):
         _judge(rep, st, verdict, rule, r, what, shape, {"source": src, "spec": verdict, "rule": rule}, ctx_expected=ctx)
